@@ -194,6 +194,23 @@ def shrink_c09(scn, viol, test):
                 c["worlds"][wi][knob] = default
                 if test(c):
                     scn = c
+    # 7. second pass over ops (earlier passes may have made some redundant), drop idle worlds
+    for wi in range(len(scn["worlds"])):
+        ops = scn["worlds"][wi]["ops"]
+
+        def with_ops2(o, wi=wi):
+            c = copy.deepcopy(scn)
+            c["worlds"][wi]["ops"] = o
+            return c
+
+        if ops:
+            scn = with_ops2(dd(ops, with_ops2, test))
+    for wi in reversed(range(len(scn["worlds"]))):
+        if len(scn["worlds"]) > 1:
+            c = copy.deepcopy(scn)
+            del c["worlds"][wi]
+            if test(c):
+                scn = c
     return scn
 
 
